@@ -19,7 +19,7 @@ def run(ctx: Ctx) -> Collector:
     c = Collector("R5")
     _update_min(ctx, c)
     n = 0
-    from ..flow import spliced, spliceable
+    from ..flow import final as spliced, spliceable
     for fi in analysis_units(ctx.prog):
         if fi.parent is not None and not fi.is_async and fi.cls is None and spliceable(ctx.prog, fi.parent, fi):
             continue        # analysed spliced into its parent
